@@ -117,20 +117,24 @@ def generate(ctx):
     for _ in range(ctx.n(150, 1500)):
         L = rng.choice([3, 4, 5, 7, 8, 11, 13, 16, 17, 23, 31, 32, 33, 47, 64, 96, rng.randint(3, ctx.n(96, 200))])
         case = {'L': L, 'aseed': rng.randrange(10 ** 6), 'ops': []}
-        case['dr' if rng.random() < 0.5 else 'dk'] = float('%.5g' % (10 ** rng.uniform(-2, 0.5)))
+        c0 = rng.random()
+        if c0 < 0.15: case['dk'] = float('%.5g' % (10 ** rng.uniform(-3.5, -2)))          # very fine k grids (large r_max): k well below 0.01
+        elif c0 < 0.25: case['dr'] = float('%.5g' % (10 ** rng.uniform(0.5, 1.5)))
+        else: case['dr' if rng.random() < 0.5 else 'dk'] = float('%.5g' % (10 ** rng.uniform(-2, 0.5)))
         for _ in range(rng.choice([0, 0, 1, 2])):
             k = rng.choice(['dr', 'dk', 'length'])
             case['ops'].append([k, rng.choice([5, 9, 16, 21, 40]) if k == 'length' else float('%.5g' % (10 ** rng.uniform(-2, 0.5)))])
         ctx.case('riemann', case, True, tags=['from:' + ('dr' if 'dr' in case else 'dk'), 'hist:%d' % len(case['ops'])]); suite_riemann(ctx, case)
     for _ in range(ctx.n(40, 300)):
-        rmax = rng.choice([20.0, 25.6, 30.0, 40.0])
+        rmax = rng.choice([20.0, 25.6, 30.0, 40.0, 800.0, 2000.0])
         N0 = rng.choice([100, 128, 160, 200, 250])
+        if rmax >= 800: N0 = rng.choice([400, 500])                      # large boxes: dk = pi/r_max < 0.01
         name = rng.choice(['gauss', 'gauss', 'yukawa', 'exp', 'sphere'])
         A = float('%.3g' % (rng.choice([-1, 1]) * 10 ** rng.uniform(-1, 1)))
         dr0 = rmax / N0
-        if name == 'gauss': a = float('%.4g' % (1.0 / rng.uniform(6 * dr0, rmax / 6) ** 2))
-        elif name == 'sphere': a = float('%.4g' % rng.uniform(8 * dr0, rmax / 4))
-        else: a = float('%.4g' % (1.0 / rng.uniform(5 * dr0, rmax / 14)))
+        if name == 'gauss': a = float('%.4g' % (1.0 / rng.uniform(6 * dr0, max(7 * dr0, min(rmax / 6, 60 * dr0))) ** 2))
+        elif name == 'sphere': a = float('%.4g' % rng.uniform(8 * dr0, min(rmax / 4, 80 * dr0)))
+        else: a = float('%.4g' % (1.0 / rng.uniform(5 * dr0, max(6 * dr0, min(rmax / 14, 40 * dr0)))))
         mode = rng.choice(['x2', 'x2', 'odd'])
         Ns = [N0, 2 * N0, 4 * N0] if mode == 'x2' else [N0, 2 * N0 + rng.choice([-1, 1]), 4 * N0 + rng.choice([-3, -1, 1, 3])]
         case = {'fam': [name, A, a], 'rmax': rmax, 'N0': N0, 'Ns': Ns}
